@@ -63,6 +63,8 @@ ARCH_VOCAB3 = [
     Sym("containing_modules", ["ba", "c"]),
     Sym("containing_modules", ["mod", "ba"]),
 ]
+# LayerRule chains: C13's vocabulary plus an architecture object that holds no layer at all
+LAYER_VOCAB16 = LAYER_VOCAB + [Sym("based_on", "EMPTY_ARCH")]
 VOCABS = {"arch": ARCH_VOCAB, "arch3": ARCH_VOCAB3, "archread": ARCH_VOCAB_READ}
 
 
@@ -151,9 +153,11 @@ def rule_outcome(seq_or_len, prefix=()):
         if a == "ARCH":
             made.append(_mk_arch())
             return made[-1]
+        if a == "EMPTY_ARCH":
+            return _mk_layered()
         return a
 
-    hist, expects, final, real, obj, aut = play(seq_or_len, LAYER_VOCAB, _mk_layer_rule, lambda: LayerRuleAutomaton({"A", "B"}), None, resolve, prefix)
+    hist, expects, final, real, obj, aut = play(seq_or_len, LAYER_VOCAB16, _mk_layer_rule, lambda: LayerRuleAutomaton({"A", "B"}), None, resolve, prefix)
     # building (and half-building) rules must leave the shared LayeredArchitecture exactly as it was defined
     want_render = str(_mk_arch())
     for arch in made:
@@ -184,7 +188,7 @@ def instances(tier: str) -> list[dict]:
     for first in range(3):
         out.append({"part": "arch3", "first": first, "L": 6 if tier == "quick" else 7})
     out.append({"part": "archread", "first": 0, "L": 7 if tier == "quick" else 8})
-    for first in range(len(LAYER_VOCAB)):
+    for first in range(len(LAYER_VOCAB16)):
         out.append({"part": "rule", "first": first, "L": L})
     from vf.engine.xh import kernel_names
 
@@ -203,7 +207,7 @@ def work(inst: dict) -> dict:
         res = run_kernels("vf.kernels.k16", inst.get("tier", "quick"), [inst["name"]])
         res["label"] = f"kernel {inst['name']}"
         return res
-    vocab = VOCABS.get(inst["part"], LAYER_VOCAB)
+    vocab = VOCABS.get(inst["part"], LAYER_VOCAB16)
     if inst["part"] in VOCABS:
 
         def outcome(n, pre):
@@ -278,7 +282,7 @@ def run(tier: str, only: str | None = None) -> int:
         items = [i for i in items if only in label_of(i)]
     rep.bounds = {
         "history_length": LEN[tier],
-        "vocabularies": {"LayeredArchitecture": [s.show() for s in ARCH_VOCAB], "LayeredArchitecture, three layers (length 6 / 7)": [s.show() for s in ARCH_VOCAB3], "LayeredArchitecture with intermediate reads (length 7 / 8)": [s.show() for s in ARCH_VOCAB_READ], "LayerRule": [s.show() for s in LAYER_VOCAB]},
+        "vocabularies": {"LayeredArchitecture": [s.show() for s in ARCH_VOCAB], "LayeredArchitecture, three layers (length 6 / 7)": [s.show() for s in ARCH_VOCAB3], "LayeredArchitecture with intermediate reads (length 7 / 8)": [s.show() for s in ARCH_VOCAB_READ], "LayerRule": [s.show() for s in LAYER_VOCAB16]},
         "kernel": "module names: symbolic strings <= 3 chars, each passed as str or [str]",
     }
     rep.assumptions = ["the history dimension is enumerated by the symbolic executor (n-ary choices); it is a finite exhaustive walk, marked degenerate", "module names in the vocabulary: 'a', 'ba', 'mod' (single- and multi-character, sharing characters)"]
